@@ -107,6 +107,27 @@ pub fn run_scenario(cfg: &Cfg) -> RunStat {
   let gen_ = hist::begin();
   hist::rec_new(fl.kind, cap, &txids, &rxids, &cfg.flavour, &cfg.kf);
 
+  // shape "prefill": a sequential prefix brings the channel into an interesting state
+  // (full, then partially drained) before the threads start racing for the last slots
+  if cfg.shape == "prefill" && fl.kind == "q" && cap > 0 {
+    let mut o = 9000u32;
+    let mut v = 90_000u32;
+    for _ in 0..cap {
+      o += 1;
+      v += 1;
+      hist::rec_call(o, txids[0], "try_send", &[v], 0, false);
+      let out = txs[0].1.sync_op("try_send", vec![Tok::new(v)]);
+      hist::rec_ret(o, out.res, out.n, &out.vals, &out.back);
+    }
+    let drain = rng.random_range(0..=cap.min(2));
+    for _ in 0..drain {
+      o += 1;
+      hist::rec_call(o, rxids[0], "try_recv", &[], 1, false);
+      let out = rxs[0].1.sync_op("try_recv", 1, Duration::from_millis(1));
+      hist::rec_ret(o, out.res, out.n, &out.vals, &out.back);
+    }
+  }
+
   let n = np + nc;
   let strat = match cfg.strategy.as_str() {
     "pct" => Strategy::Pct { d: 3, k: 400 },
@@ -131,6 +152,9 @@ pub fn run_scenario(cfg: &Cfg) -> RunStat {
     let mut left = cfg.items;
     while left > 0 {
       let mut forms: Vec<&'static str> = vec!["send", "try_send"];
+      if cfg.shape == "prefill" {
+        forms = vec!["try_send", "try_send", "send"];
+      }
       if tinfo.batch && left >= 2 {
         forms.extend(["send_batch", "send_batch_mut", "try_send_batch"]);
       }
